@@ -893,6 +893,78 @@ func c03LMTPCommit(c *Check) {
 		}
 	}
 	c.Hold("R3b", "BodyNonAtomic:target-failure-marks-it", rb.FI.Decl.Pos(), msg == "", msg)
+	// (ii-b) a failure is reported (and the deliveries marked) only with an actual error: the mark-all / report-all step
+	// is never reached on the path where the error it is given is nil (it would tell every recipient "250" while
+	// Commit aborts every target)
+	msg = ""
+	for _, pt := range rb.F.Points() {
+		if !callsMarkAll(pt) {
+			continue
+		}
+		for _, call := range callsAt(pt.Node()) {
+			for _, a := range call.Args {
+				eo, ok := objOf(info, a).(*types.Var)
+				if !ok || !isErrorType(eo.Type()) {
+					continue
+				}
+				// where is that error defined?
+				for _, dp := range rb.F.Points() {
+					if dp.Node() == nil || !assignsObj(info, dp.Node(), eo) {
+						continue
+					}
+					redef := func(q Pt) bool { return q.Node() != nil && assignsObj(info, q.Node(), eo) }
+					if path, f := rb.F.ReachRefined(dp, eo, true, false, func(q Pt) bool { return q == pt }, redef); f {
+						msg = "the 'body stage failed' step is reached although the error is nil: every recipient is told the message was accepted while all target deliveries are marked and aborted – the message is lost: " + rb.F.Describe(path)
+					}
+				}
+			}
+		}
+	}
+	c.Hold("R3b", "BodyNonAtomic:failure-only-with-error", rb.FI.Decl.Pos(), msg == "", msg)
+	// (ii-c) the atomic path: Body reports success only after the body was handed to every started target
+	if rBody := c.In(pipelineRel, "msgpipelineDelivery", "Body"); rBody != nil {
+		bi := rBody.Info
+		var bfan *ElemLoop
+		for _, l := range elemLoops(bi, rBody.FI.Decl.Body, isDeliveries(bi)) {
+			l := l
+			for _, call := range callsIn(l.Body) {
+				if methodName(call) == "Body" && callRecv(call) != nil && l.IsElem(callRecv(call)) && l.Whole {
+					bfan = l
+				}
+			}
+		}
+		m := ""
+		if bfan == nil {
+			m = "undecided: Body has no fan-out over the started target deliveries"
+		} else if path, f := rBody.F.Reach(Query{From: rBody.Entry(), Inclusive: true, Target: rBody.IsSuccessReturn, Avoid: isPt(rBody.F.LoopDone(bfan))}); f {
+			m = "the pipeline's Body can report success without having handed the body to the target deliveries (the caller then commits targets that hold no message): " + rBody.F.Describe(path)
+		}
+		if m == "" && bfan != nil {
+			// `return err` with err possibly nil before the fan-out
+			done := isPt(rBody.F.LoopDone(bfan))
+			for _, blk := range rBody.F.G.Blocks {
+				ex := Pt{blk, len(blk.Nodes)}
+				_, ret := rBody.F.Exit(ex)
+				if ret == nil || len(ret.Results) != 1 {
+					continue
+				}
+				v, ok := objOf(bi, ret.Results[0]).(*types.Var)
+				if !ok || v.IsField() || !isErrorType(v.Type()) {
+					continue
+				}
+				for _, dp := range rBody.F.Points() {
+					if dp.Node() == nil || !assignsObj(bi, dp.Node(), v) {
+						continue
+					}
+					avoid := func(q Pt) bool { return done(q) || (q.Node() != nil && assignsObj(bi, q.Node(), v)) }
+					if path, f := rBody.F.ReachRefined(dp, v, true, false, func(q Pt) bool { return q == ex }, avoid); f {
+						m = "the pipeline's Body can return a nil error – success – before the body was handed to the target deliveries: " + rBody.F.Describe(path)
+					}
+				}
+			}
+		}
+		c.Hold("R3b", "Body:success-after-fan-out", rBody.FI.Decl.Pos(), m == "", m)
+	}
 	// (iii) Commit aborts marked deliveries
 	ci := rc.Info
 	msg = "undecided: Commit has no loop over the deliveries"
